@@ -7,11 +7,15 @@
    types/enumtype.go, and the name test of deferred.Resolve, types/deferred.go), Model/ResolveObj.v (of the resolve
    stage of user-declared Object types: the override check of members, types/annotatedmember.go + attribute.go, and
    the parameter walk of a parameterized Object type, types/objecttypeextension.go; the other creators are covered
-   by the direct check only).  Oracles, universally quantified in every theorem: ol = unicode.IsLetter on non-ASCII
+   by the direct check only), Model/ResolveHier.v (the `equality` section of an Object type with a chain of
+   ancestors, types/objecttype.go InitFromHash / EqualityAttributes / findEqualityDefiner, and the navigation of a
+   Like type, types/liketype.go + TupleType.At + objectType.resolvedParent).  Oracles, universally quantified in every theorem: ol = unicode.IsLetter on non-ASCII
    runes, pf = strconv.ParseFloat, rx = regexp.Compile succeeds. *)
 From Coq Require Import ZArith NArith Bool List.
 From PcoreV Require Import Model.Base Model.Lexer Model.Parser Model.Resolve Model.ResolveObj
-  Proofs.LexerProofs Proofs.LexerColumns Proofs.ParserProofs Proofs.ResolveProofs Proofs.ResolveObjProofs.
+  Model.ResolveHier
+  Proofs.LexerProofs Proofs.LexerColumns Proofs.ParserProofs Proofs.ResolveProofs Proofs.ResolveObjProofs
+  Proofs.ResolveHierProofs.
 Import ListNotations.
 Open Scope Z_scope.
 
@@ -265,4 +269,81 @@ Proof. vm_compute. reflexivity. Qed.
 Example C06_more_arguments_than_parameters : ext_initialize 1 (XPositional [PgGood; PgGood]) = XOk [0%nat].
 Proof. vm_compute. reflexivity. Qed.
 Example C06_only_default_arguments : ext_initialize 2 (XPositional [PgDefault]) = XErr EmptyParameterList.
+Proof. vm_compute. reflexivity. Qed.
+
+(* ---- the resolve stage: Object types with ancestors (Model/ResolveHier.v) ------------------------------------- *)
+
+(* findEqualityDefiner, the walk that words PCORE_EQUALITY_REDEFINED, ends for every chain of ancestors (of any
+   length, every level with any members and any equality) and every attribute name: with fuel = the length of the
+   chain it answers with one of the types of the chain - never nil, never out of fuel - namely the one as many
+   levels up as there are ancestors in a row whose equality includes the attribute. *)
+Theorem C06_equality_definer_total :
+  forall (t : level) (anc : list level) (a : str),
+    find_equality_definer (t :: anc) a = HDefiner (leading_including anc a) /\
+    Nat.le (leading_including anc a) (length anc).
+Proof. intros t anc a. split; [apply find_equality_definer_spec | apply leading_including_le]. Qed.
+Print Assumptions C06_equality_definer_total.
+
+(* The equality section, for every Object type with every chain of ancestors, initialized from the top: a type, or
+   one of the reported errors - never a fault (a nil type worded), never a walk that does not end. *)
+Theorem C06_equality_section_total :
+  forall chain : list level, resolve_chain chain <> QFault /\ resolve_chain chain <> QOutOfFuel.
+Proof. exact resolve_chain_total. Qed.
+Print Assumptions C06_equality_section_total.
+
+(* The reading of the redefinition error: a name of `equality` that the type does not declare itself, that is an
+   inherited attribute and that the equality of the parent includes is rejected, and the error names the ancestor
+   leading_including levels up (at least the parent). *)
+Theorem C06_equality_redefined_names_definer :
+  forall (t : level) (anc : list level) (n : str) (rest : list str),
+    find_member false (lv_members t) n = None -> find_member true (lv_members t) n = None ->
+    parent_member anc n = Some MkAttr ->
+    names_includes (equality_attributes anc) n = true -> anc <> [] ->
+    exists lv, nth_error (t :: anc) (leading_including anc n) = Some lv /\
+               Nat.le 1 (leading_including anc n) /\
+               equality_loop t anc (n :: rest) = QRedefined (lv_name lv).
+Proof. exact equality_loop_redefined. Qed.
+Print Assumptions C06_equality_redefined_names_definer.
+
+(* ---- the resolve stage: Like types (Model/ResolveHier.v) --------------------------------------------------------- *)
+
+(* Like[base, navigation] as the parent of an Object type, for every base type (Object, Struct, Tuple of any types
+   and size, aliases resolved or not, any other type) and every navigation (any number of parts, any result of
+   ParseInt): an Object parent or one of the three reported errors, never a fault - TupleType.At stays in range
+   (fix 820b5a6), navigate never meets a nil value. *)
+Theorem C06_like_navigation_total :
+  forall (base : lty) (parts : list (str * option Z)),
+    like_resolve base parts <> RFault /\ like_parent base parts <> LPFault.
+Proof. intros. split; [apply like_resolve_no_fault | apply like_parent_no_fault]. Qed.
+Print Assumptions C06_like_navigation_total.
+
+Theorem C06_tuple_at_total :
+  forall (ts : list lty) (max i : Z), tuple_at ts max i <> TAFault.
+Proof. exact tuple_at_no_fault. Qed.
+Print Assumptions C06_tuple_at_total.
+
+(* Navigating into an alias that has no resolved type yet (declared after its user, or the alias under resolution),
+   directly or over resolved aliases, with any non-empty navigation, is the reported error PCORE_UNRESOLVED_TYPE. *)
+Theorem C06_like_unresolved_alias_reported :
+  forall (t : lty) (p : str * option Z) (ps : list (str * option Z)),
+    spine_unresolved t = true -> like_resolve t (p :: ps) = RUnresolvedAlias.
+Proof. exact like_unresolved_alias. Qed.
+Print Assumptions C06_like_unresolved_alias_reported.
+
+(* C (parent B (parent A with the attribute x)) lists x in its equality: redefined, and the error names A, two
+   levels up (the loop of seeded change C06-m7 never answers here: ResolveHierProofs.definer_m7_spins) *)
+Example C06_equality_redefined_two_levels_up :
+  resolve_chain [mkLevel [67]%N [] (Some [[120]%N]); mkLevel [66]%N [] None; mkLevel [65]%N [([120]%N, MkAttr)] None]
+  = QRedefined [65]%N.
+Proof. vm_compute. reflexivity. Qed.
+Example C06_equality_m7_out_of_fuel :
+  definer_m7 1000 [mkLevel [66]%N [] None; mkLevel [65]%N [([120]%N, MkAttr)] None] [120]%N = HOutOfFuel.
+Proof. vm_compute. reflexivity. Qed.
+(* Like[Tuple, '0'] as a parent: not found (a fault before fix 820b5a6); Like[B, 'a'] with B not resolved yet *)
+Example C06_like_bare_tuple : like_parent (LTuple [] max_int64) [([48]%N, Some 0)] = LPUnresolvedOf.
+Proof. vm_compute. reflexivity. Qed.
+Example C06_like_unresolved : like_parent LAliasUnresolved [([97]%N, None)] = LPUnresolvedAlias.
+Proof. vm_compute. reflexivity. Qed.
+Example C06_like_struct_member :
+  like_parent (LAlias (LStruct [([97]%N, LObject [])])) [([97]%N, None)] = LPObject.
 Proof. vm_compute. reflexivity. Qed.
